@@ -76,3 +76,121 @@ Example C01_ex_valid :
   valid_cfg (ex_ctx 65535 65535) (ex_opts 65535 65535 0 0 D90 false) /\
   valid_cfg (ex_ctx 240 320) (ex_opts 100 50 3 7 D180 true).
 Proof. unfold valid_cfg; cbn; lia. Qed.
+
+(* ================================================================================================ *)
+(* whole programs of drawing calls (proofs in Proofs/DrawP.v, Proofs/ProgramP.v)                    *)
+(* ================================================================================================ *)
+Require Import Oracle.DrawSpec Proofs.DrawP Proofs.ClipP Proofs.BatchP Proofs.OrientStateP Proofs.ProgramP.
+
+(* an in-bounds logical point lands inside the configured panel window ... *)
+Theorem C01_cell_inside : forall o x y,
+  0 <= x < fst (lsize o) -> 0 <= y < snd (lsize o) ->
+  let '(cx, cy) := cell (panel_of o) (o_orient o) x y in
+  o_ox o <= cx < o_ox o + o_w o /\ o_oy o <= cy < o_oy o + o_h o.
+Proof. exact cell_inside_panel. Qed.
+
+(* ... and distinct logical points land in distinct cells *)
+Theorem C01_cell_injective : forall o x1 y1 x2 y2,
+  0 <= x1 < fst (lsize o) -> 0 <= y1 < snd (lsize o) ->
+  0 <= x2 < fst (lsize o) -> 0 <= y2 < snd (lsize o) ->
+  cell (panel_of o) (o_orient o) x1 y1 = cell (panel_of o) (o_orient o) x2 y2 -> x1 = x2 /\ y1 = y2.
+Proof. exact cell_injective. Qed.
+
+(* ONE OPERATION. Driver state `st` with a configuration Builder::init accepts, cached MADCTL = encoding
+   of the stored options; a reference controller `k` holding that MADCTL; the crate's batch capacities
+   ordered (1 <= MAX_ROW_SIZE <= MAX_BLOCK_SIZE); `op` well-formed: set_pixel(s) in bounds, draw_iter
+   with arbitrary i32 points, fill_contiguous / fill_solid with any valid Rectangle, clear,
+   set_orientation. Then in both build profiles (c_md c is arbitrary):
+   the call returns Ok; the driver state changes only for set_orientation; the controller's write
+   history grows by EXACTLY the list the specification prescribes (rotate clockwise, mirror, shift by
+   the offset); the controller flags no anomaly; controller and driver stay in agreement; every written
+   cell is inside the panel window; a drawing call is framed (CASET RASET RAMWR PIX)* with no burst
+   longer than its window; fills use one window when something is visible and none otherwise. *)
+Theorem C01_op : forall c st k op,
+  valid_cfg c (d_opts st) -> madctl_ok st -> ctl_matches c (d_opts st) k ->
+  (1 <= c_rowcap c)%nat -> (c_rowcap c <= c_blockcap c)%nat -> op_wf (d_opts st) op ->
+  let o := d_opts st in
+  let t := fst (fst (step c st op)) in
+  let r := snd (fst (step c st op)) in
+  let st' := snd (step c st op) in
+  let k' := ctl_run k t in
+  let ws := spec_op_writes (c_enc c) (panel_of o) (o_orient o) op in
+  r = ROk /\ st' = op_post st op /\
+  writes k' = writes k ++ ws /\ k_flags k' = k_flags k /\
+  ctl_matches c (d_opts st') k' /\ valid_cfg c (d_opts st') /\ madctl_ok st' /\
+  Forall (wr_inside o) ws /\
+  (is_draw op = true -> framing_ok t = true /\ bursts_fit t = true) /\
+  (forall n, spec_ramwr o op = Some n -> count_ramwr t = n).
+Proof. exact step_draw_decode. Qed.
+
+(* ANY PROGRAM of such operations (orientation changes interleaved): every call returns Ok; the
+   controller's write history grows by exactly the concatenation of the per-operation specification
+   lists, each under the orientation in force at that point — an ORDERED list equality, so order of
+   writes, last-write-wins and "no other cell changes" are all contained in it; no anomaly is flagged;
+   the final driver state is the fold of `op_post`; driver and controller still agree afterwards. *)
+Theorem C01_program : forall c ops st k,
+  valid_cfg c (d_opts st) -> madctl_ok st -> ctl_matches c (d_opts st) k ->
+  (1 <= c_rowcap c)%nat -> (c_rowcap c <= c_blockcap c)%nat -> prog_wf (d_opts st) ops ->
+  let o := d_opts st in
+  let st' := snd (exec c st ops) in
+  let k' := ctl_run k (exec_trace c st ops) in
+  let ws := spec_prog_writes (c_enc c) (panel_of o) (o_orient o) ops in
+  exec_all_ok c st ops = true /\
+  writes k' = writes k ++ ws /\ k_flags k' = k_flags k /\
+  st' = fold_left op_post ops st /\
+  ctl_matches c (d_opts st') k' /\ valid_cfg c (d_opts st') /\ madctl_ok st' /\
+  Forall (wr_inside o) ws /\
+  Forall2 (fun op tr => is_draw op = true -> framing_ok (fst tr) = true /\ bursts_fit (fst tr) = true)
+          ops (fst (exec c st ops)).
+Proof. exact exec_draw_program. Qed.
+
+(* the framebuffer content afterwards: each cell holds the colour words of the LAST specification
+   entry covering it, and what it held before if none does; cells outside the panel window never change *)
+Theorem C01_last_write_wins : forall c ops st k x y,
+  valid_cfg c (d_opts st) -> madctl_ok st -> ctl_matches c (d_opts st) k ->
+  (1 <= c_rowcap c)%nat -> (c_rowcap c <= c_blockcap c)%nat -> prog_wf (d_opts st) ops ->
+  let o := d_opts st in
+  let k' := ctl_run k (exec_trace c st ops) in
+  mem k' x y = last_write (spec_prog_writes (c_enc c) (panel_of o) (o_orient o) ops) x y (mem k x y) /\
+  (~ (o_ox o <= x < o_ox o + o_w o /\ o_oy o <= y < o_oy o + o_h o) -> mem k' x y = mem k x y).
+Proof. exact mem_last_write_wins. Qed.
+
+(* ---- non-vacuity: a 100x50 window at (3,7) of a 240x320 controller, mounted upside down and
+   mirrored; a program touching every kind of call, with off-screen pixels, a rectangle overlapping
+   the corner, an orientation change in the middle ---- *)
+Definition ex_c := ex_ctx 240 320.
+Definition ex_o := ex_opts 100 50 3 7 D180 true.
+Definition ex_st := fresh_state ex_o.
+Definition ex_k := ctl_run (power_on 240 320) [ECmd 0x36 [madctl_of_opts ex_o]].
+Definition ex_prog : list pop :=
+  [ PClear 7;
+    PSetPixel 3 4 1;
+    PDrawIter [(-1, 0, 9); (0, 0, 2); (1, 0, 3); (2, 0, 4); (0, 1, 5); (5, 200, 6); (2147483647, -2147483648, 8)];
+    PFillContig {| rx := -1; ry := -1; rw := 3; rh := 3 |} [10; 11; 12; 13; 14; 15; 16; 17; 18; 19];
+    PSetOrient {| rotn := D90; mir := false |};
+    PFillSolid {| rx := 40; ry := 90; rw := 100; rh := 100 |} 5;
+    PSetPixels 0 0 1 1 [1; 2; 3];
+    PFillContigGen {| rx := 48; ry := -2; rw := 4; rh := 4 |} 16;
+    PFillSolid {| rx := 50; ry := 0; rw := 10; rh := 10 |} 9 ].
+
+Example C01_ex_hyps :
+  valid_cfg ex_c (d_opts ex_st) /\ madctl_ok ex_st /\ ctl_matches ex_c (d_opts ex_st) ex_k /\
+  (1 <= c_rowcap ex_c)%nat /\ (c_rowcap ex_c <= c_blockcap ex_c)%nat /\ prog_wf (d_opts ex_st) ex_prog.
+Proof.
+  split; [unfold valid_cfg; cbn; lia|]. split; [reflexivity|].
+  split; [unfold ctl_matches; vm_compute; repeat split|].
+  split; [cbn; lia|]. split; [cbn; lia|].
+  unfold ex_prog, prog_wf, op_wf, rect_valid, i32. cbn [d_opts ex_st fresh_state lsize ex_o ex_opts
+    o_orient rotn is_horizontal o_w o_h set_orient rx ry rw rh length].
+  change (2 ^ 31) with 2147483648. change (2 ^ 32) with 4294967296.
+  repeat (split; try lia); repeat constructor; try lia.
+Qed.
+
+(* the same program, evaluated: the controller's write history IS the specification list (18 entries; the last fill is off-screen) *)
+Example C01_ex_run :
+  writes (ctl_run ex_k (exec_trace ex_c ex_st ex_prog)) =
+  spec_prog_writes (c_enc ex_c) (panel_of ex_o) (o_orient ex_o) ex_prog /\
+  length (spec_prog_writes (c_enc ex_c) (panel_of ex_o) (o_orient ex_o) ex_prog) = 18%nat /\
+  k_flags (ctl_run ex_k (exec_trace ex_c ex_st ex_prog)) = [] /\
+  exec_all_ok ex_c ex_st ex_prog = true.
+Proof. vm_compute. repeat split. Qed.
